@@ -189,6 +189,13 @@ class C07(ScanCheck):
                 ents = ENTRIES[:3] + (["pchecker"] if rng.random() < 0.25 else [])
                 if n >= 2000:
                     ents = ["tx", "checker"]
+                if n <= 3 and rng.random() < 0.4:
+                    # ANOTHER wallet scans the same transaction right before the owner does (same transaction key, other view
+                    # key; or the same view key with another spend key): what the first scan computed must not leak into the second
+                    v2 = s_["v"] if rng.random() < 0.3 else sc.rscalar(rng)
+                    S2 = sc.cp(sc.gmul(sc.rscalar(rng))).hex()
+                    cases.append(Case("scan tx %s %s %d %d %d %d %s" % (sc.sc(v2).hex(), S2, r[0], r[1], r[2], r[3], txhex),
+                                      "n=%d other-wallet-first" % n))
                 for e in ents:
                     l = "scan %s %s %s %d %d %d %d %s" % (e, sc.sc(s_["v"]).hex(), S, r[0], r[1], r[2], r[3], txhex)
                     cls = "n=%d %s" % (n, "owned" if owned else ("err" if line.startswith("ERR") else "none"))
@@ -245,6 +252,22 @@ class C07(ScanCheck):
                             if truth is not None and o["tag"] == "x":
                                 kind += "-wrong-view-tag"
                             cases.append(Case(l, "subkey_check " + kind + ("" if pos == i else " wrong-position")))
+        # TxOutTarget::check_view_tag called directly, at ANY position up to u64::MAX (the scanner only passes positions of
+        # real outputs): tag == Keccak("view_tag" || rv || varint(position))[0]; untagged targets always pass
+        self.vt_expected = {}
+        for _ in range(6):
+            rv = ed.compress(ed.mul(sc.rscalar(rng), ed.B))
+            key = ed.compress(ed.mul(sc.rscalar(rng), ed.B))
+            for pos in (0, 1, 127, 128, 16383, 16384, 2**21 - 1, 2**32 - 1, 2**32, 2**49, 2**56 - 1, 2**56, 2**63 - 1, 2**63, 2**64 - 1,
+                        rng.getrandbits(64)):
+                good = ed.keccak256(b"view_tag" + rv + ed.varint(pos))[0]
+                for tgt, want in ((b"\x03" + key + bytes([good]), 1), (b"\x03" + key + bytes([(good + 1) & 0xff]), 0),
+                                  (b"\x03" + key + bytes([good ^ 0x80]), 0), (b"\x02" + key, 1)):
+                    l = "viewtag %s %s %d" % (tgt.hex(), rv.hex(), pos)
+                    self.vt_expected[l] = "OK %d" % want
+                    cases.append(Case(l, "viewtag:" + ("untagged" if tgt[0] == 2 else "match" if want else "mismatch")))
+        cases.append(Case("viewtag %s %s 5" % ((b"\x03" + key).hex(), rv.hex()), "viewtag:truncated-target"))
+        cases.append(Case("viewtag %s %s 5" % ((b"\x03" + key + b"\x07").hex(), (b"\xff" * 32).hex()), "viewtag:invalid-derivation-key"))
         return cases
 
     @staticmethod
@@ -259,6 +282,11 @@ class C07(ScanCheck):
         r = impl.split(" ")
         if r[0] in ("PANIC", "ABORT", "TIMEOUT"):
             return "implementation did not return: " + r[0]
+        if case.line.startswith("viewtag "):
+            want = getattr(self, "vt_expected", {}).get(case.line)
+            if want is not None and impl != want:
+                return "check_view_tag returned %s, the view-tag definition gives %s" % (impl[:40], want)
+            return None
         if case.line.startswith("subkey_check "):
             want, truth = getattr(self, "sub_expected", {}).get(case.line, (None, None))
             if truth is not None and impl != truth:
@@ -284,7 +312,7 @@ class C07(ScanCheck):
 
     def neighbours(self, case, rng):
         w = case.line.split(" ")
-        if w[0] == "subkey_check":
+        if w[0] in ("subkey_check", "viewtag"):
             return []
         return [Case(" ".join([w[0], e] + w[2:])) for e in ENTRIES if e != w[1]]
 
